@@ -4,7 +4,7 @@
  * pos = line + off with 0 <= off <= g_len.  (g_len need not be the FIRST NUL: the contracts hold for every NUL
  * position at or after pos, in particular for strlen.)  Memory safety of every access in the sliced bodies is
  * checked by --bounds-check/--pointer-check against exactly this n-byte object and against the functions'
- * local scratch arrays; the line is in no assigns clause, so every write to it would be a violation as well.
+ * local scratch buffers (std::vector<char> sized by the token: an exactly sized malloc object in the stub); the line is in no assigns clause, so every write to it would be a violation as well.
  * "For all k" statements use the ghost index g_k (relative to pos) with v_k == pos[g_k] on entry. */
 #include "verif_c.h"
 #include "constants.h"
@@ -14,9 +14,6 @@
 #endif
 #ifndef CAP
 #define CAP 9000
-#endif
-#ifndef MAXLEN_FOR_INVARIANT           /* size of the scratch arrays as far as the loop invariants may index them */
-#define MAXLEN_FOR_INVARIANT SOPLEX_LPF_MAX_LINE_LEN
 #endif
 char* gp_line; char** gpp_pos; const char* gp_arg;
 int g_maxlen, g_len, g_off, g_k, g_w, g_calls, g_tl, g_num, g_added, g_add_same, g_cadded, v_nret, g_scan_end;
@@ -204,7 +201,7 @@ void h_readValue(void) { char* line; int n, off; int* out; havoc_ghosts(); g_rec
 int w_readColName(char* line, int n, int off, int have_empty, int* off_out, int* tl_out, int* end_out)
 __CPROVER_requires(LINE_OK(line, n, off) && FRESH_OUT(off_out) && FRESH_OUT(tl_out) && FRESH_OUT(end_out))
 __CPROVER_requires(GHOST_K(line, off) && 0 <= g_tl && g_tl <= g_len - off)
-__CPROVER_requires(g_calls == 0 && g_added == 0 && g_cadded == 0 && 0 <= g_num && g_num < 1000000000 && g_maxlen == MAXLEN_FOR_INVARIANT)
+__CPROVER_requires(g_calls == 0 && g_added == 0 && g_cadded == 0 && 0 <= g_num && g_num < 1000000000)
 __CPROVER_assigns(gp_line, gpp_pos, gp_arg, *off_out, *tl_out, *end_out, g_calls, v_arg_k, v_arg_end, v_arg_0, v_nret, g_added, g_add_same, g_cadded)
 /* pos ends inside the line, behind the name and one optional blank */
 __CPROVER_ensures(0 <= *tl_out && off + *tl_out <= g_len && *end_out == line[off + *tl_out])
